@@ -34,6 +34,35 @@ pub fn thresholds() -> &'static [f64; 30] {
   })
 }
 
+/// The 30 limits as the *documented geometric quantity*, recomputed by the model (independent of
+/// the crate's table): used to describe a radius relatively to the nearest limit above it in the
+/// facts of a violation, so that the signature of known finding D17 does not follow a change of
+/// the table itself.
+pub fn model_thresholds() -> &'static [f64; 30] {
+  use std::sync::OnceLock;
+  static T: OnceLock<[f64; 30]> = OnceLock::new();
+  T.get_or_init(|| {
+    let mut t = [0.0; 30];
+    for k in 0..30u8 {
+      t[k as usize] = super::c16::model_threshold(k);
+    }
+    t
+  })
+}
+
+/// radius / (smallest model limit above the radius), 0 if the radius is above all limits.  The model
+/// and the crate's table agree to ~1e-9 only, so a limit counts as "above" the radius up to a
+/// relative slack of 1e-6 (the ratio may then be 1 + 1e-6 at most).
+pub fn rel_to_model_limit(radius: f64) -> f64 {
+  let t = model_thresholds();
+  for k in (0..30).rev() {
+    if radius < t[k] * (1.0 + 1e-6) {
+      return radius / t[k];
+    }
+  }
+  0.0
+}
+
 pub fn radius() -> BoxedStrategy<(f64, String)> {
   let t = *thresholds();
   prop_oneof![
